@@ -446,3 +446,23 @@ func init() {
 		Mutants:     muts[:2],
 	})
 }
+
+func init() {
+	register(&PropDef{
+		ID:    "C22",
+		Title: "The uniform syntax-tree wrapper round-trips every node losslessly",
+		Explanation: "Decided, for each of the ~50 wrapper types over *ast.N, with the field list of ast.N taken from go/types: W2 Size() is a constant k and Get/Set accept exactly the indexes 0..k-1 (badIndex reports the same k); W3 Get(j) reads field f iff Set(j) writes f; W4 every child field (a node, a slice of nodes, a *FieldList / *BlockStmt ...) is reachable through some index and every scalar field (positions, tokens, flags) is copied by New() or assigned by a Set arm; W5 ToAst wraps *ast.N in that wrapper; W6 slice wrappers use len / X[i]. " +
+			"Together these imply that rebuilding any tree through New + Set(i, Get(i)) preserves every field the rule covers. Fields the forked parser never fills are frozen exceptions. Not decided: structural equality of a specific tree (implied for all trees by the clauses above).",
+		Assumptions: []string{"field lists of go/ast as type-checked by the installed toolchain"},
+		Rules:       []func(*Ctx){ruleAstWrappers, func(c *Ctx) { c.Floor("W3-get-set", 60); c.Floor("W4-field-coverage", 70); c.Floor("W5-toast", 40) }},
+		Mutants: []Mutant{
+			{Name: "set-writes-other-field", File: "ast2/ast_node.go", Old: "\tcase 2:\n\t\tx.X.High = expr\n", New: "\tcase 2:\n\t\tx.X.Low = expr\n", Canary: true},
+			{Name: "new-drops-chan-direction", File: "ast2/ast_node.go", Old: "Arrow: x.X.Arrow, Dir: x.X.Dir}}", New: "Arrow: x.X.Arrow}}", Canary: true},
+			{Name: "slice3-flag-not-derived", File: "ast2/ast_node.go", Old: "\t\tx.X.Max = expr\n\t\tx.X.Slice3 = expr != nil\n", New: "\t\tx.X.Max = expr\n"},
+			{Name: "gendecl-new-drops-tok", File: "ast2/ast_slice.go", Old: "TokPos: x.X.TokPos, Tok: x.X.Tok, Lparen", New: "TokPos: x.X.TokPos, Lparen"},
+			{Name: "get-skips-child", File: "ast2/ast_node.go", Old: "return ToAst3(i, x.X.Init, x.X.Tag, x.X.Body)", New: "return ToAst3(i, x.X.Init, x.X.Init, x.X.Body)"},
+			{Name: "size-too-small", File: "ast2/ast_node.go", Old: "func (x SliceExpr) Size() int      { return 4 }", New: "func (x SliceExpr) Size() int      { return 3 }"},
+			{Name: "toast-wrong-wrapper", File: "ast2/wrap.go", Old: "\t\tx = BadStmt{node}", New: "\t\tx = EmptyStmt{&ast.EmptyStmt{}}"},
+		},
+	})
+}
